@@ -166,10 +166,6 @@ theorem C14_refines [DecidableEq K] (ts : ℕ → K) (T L N d1 d2 : ℕ) (A : Se
         subst hk0
         exact (C14_single_frame L N d1 d2 A).symm
 
-/-- the lag-0 sum of the Spec: Σ over all origins (evenly spaced) resp. the first frame only -/
-def lag0 (even : Bool) (L T N d1 d2 : ℕ) (A : Series K) : K :=
-  if even then ∑ t ∈ range T, pair L N d1 d2 A t t else pair L N d1 d2 A 0 0
-
 /-- **the value at lag zero is exactly one** whenever the lag-0 sum is not zero (when it is zero the real routine
 divides 0 by 0 and returns NaN without raising; that case is excluded here and covered by the edge stream) -/
 theorem C14_lag0_is_one [DecidableEq K] (ts : ℕ → K) (T L N d1 d2 : ℕ) (A : Series K) (hL : L ∈ [2, 3, 4]) (hT : 1 ≤ T)
@@ -186,7 +182,7 @@ theorem C14_lag0_is_one [DecidableEq K] (ts : ℕ → K) (T L N d1 d2 : ℕ) (A 
     simp only [if_true] at h0 ⊢
     apply div_self
     unfold specLinear
-    rw [sumRange_eq, Nat.sub_zero]
+    rw [Nat.sub_zero]
     have : (T : K) ≠ 0 := by exact_mod_cast (by omega : T ≠ 0)
     exact div_ne_zero h0 this
   | false =>
@@ -195,7 +191,7 @@ theorem C14_lag0_is_one [DecidableEq K] (ts : ℕ → K) (T L N d1 d2 : ℕ) (A 
     exact div_self h0
 
 /-- the hypothesis of `C14_lag0_is_one` is satisfiable: one particle with value 1 in a single frame -/
-example : lag0 (K := ℚ) false 2 1 1 1 1 (fun _ _ _ _ => ⟨1, 0⟩) ≠ 0 := by
+example : lag0 (α := ℚ) false 2 1 1 1 1 (fun _ _ _ _ => ⟨1, 0⟩) ≠ 0 := by
   decide +kernel
 
 /-! ## time axis -/
@@ -203,10 +199,10 @@ example : lag0 (K := ℚ) false 2 1 1 1 1 (fun _ _ _ _ => ⟨1, 0⟩) ≠ 0 := b
 /-- the first column is (timestep − first timestep)·dt; it starts at 0; and for evenly spaced frames lag `k` sits at
 time k·(step)·dt -/
 theorem C14_time_axis (ts : ℕ → K) (dt : K) (T k : ℕ) :
-    Pms.Gen.TimeCorr.timeAxis ts dt k = (ts k - ts 0) * dt ∧
+    Pms.Gen.TimeCorr.timeAxis ts dt k = specTime ts dt k ∧ specTime ts dt k = (ts k - ts 0) * dt ∧
     Pms.Gen.TimeCorr.timeAxis ts dt 0 = 0 ∧
     (Evenly ts T → k < T → Pms.Gen.TimeCorr.timeAxis ts dt k = (k : K) * (ts 1 - ts 0) * dt) := by
-  refine ⟨rfl, by simp [Pms.Gen.TimeCorr.timeAxis], fun hev hk => ?_⟩
+  refine ⟨rfl, rfl, by simp [Pms.Gen.TimeCorr.timeAxis], fun hev hk => ?_⟩
   have : ∀ j, j < T → ts j = ts 0 + (j : K) * (ts 1 - ts 0) := by
     intro j
     induction j with
@@ -221,9 +217,6 @@ theorem C14_time_axis (ts : ℕ → K) (dt : K) (T k : ℕ) :
   rw [this k hk]; ring
 
 /-! ## complex numbers and real series -/
-
-/-- `Cx ℝ` is ℂ -/
-def toC (x : Cx ℝ) : ℂ := ⟨x.re, x.im⟩
 
 /-- over ℝ the pair product is Mathlib's Re Σ A_n · conj(A_m) -/
 theorem C14_complex (L N d1 d2 : ℕ) (A : Series ℝ) (n m : ℕ) :
